@@ -29,7 +29,7 @@ ORACLES = {
 # class invariants assumed on objects that exist when the analysed call starts (established by the
 # constructors / registration functions, which are verified to preserve them where under contract)
 FIELD_TYPES = {
-    ('pjrpc.server.dispatcher:MethodRegistry', '_registry'): 'dict[pjrpc.server.dispatcher:Method]',
+    ('pjrpc.server.dispatcher:MethodRegistry', '_registry'): 'dict[pjrpc.server.dispatcher:Method]@registry',
     ('pjrpc.server.dispatcher:BaseDispatcher', '_registry'): '=pjrpc.server.dispatcher:MethodRegistry',
     ('pjrpc.server.dispatcher:BaseDispatcher', '_error_handlers'): 'dict[list[=UserErrorHandler]]',
     ('pjrpc.client.client:BaseAbstractClient', '_tracers'): 'list[=UserTracer]',
@@ -47,6 +47,11 @@ FIELD_TYPES = {
     ('pjrpc.server.specs.openrpc:OpenRPC', '_schema_extractor'): '=UserSchemaExtractor',
     ('pjrpc.server.specs.openapi:OpenAPI', '_error_http_status_map'): '=dict',
     ('pjrpc.server.dispatcher:Method', 'method'): '=UserMethod',
+    ('pjrpc.server.dispatcher:Method', 'name'): 'str',
+    ('pjrpc.server.dispatcher:Method', 'context'): 'opt:str',
+    ('pjrpc.server.dispatcher:Method', 'positional'): 'bool',
+    ('builtins:UserMethod', '__pjrpc_meta__'): '=dict@meta',
+    ('builtins:UserMethod', '__name__'): 'str',
     ('pjrpc.client.client:BaseBatch', '_client'): 'pjrpc.client.client:BaseAbstractClient',
     ('pjrpc.client.client:BaseBatch', '_requests'): '=pjrpc.common.v20:BatchRequest',
     ('pjrpc.client.client:BaseBatch', '_id_gen'): '=UserIdIter',
